@@ -19,6 +19,8 @@ RULE = ("Mode H: a world of live objects in ONE process - model A=All(B,Q) with 
         "ge_polyhedron, default_prios, leafs, select, add, ...). EVERY call sequence of length <=2 (thorough: <=3 via state de-duplication) is "
         "replayed from scratch in a child forked from a pristine parent. invariants: (1) every call in every reachable state returns what "
         "it returns in a pristine process; (2) no call changes the deep fingerprint of any object of the world (caches may fill: hidden state). "
+        "Second mode: history = the ORDER in which different models of a family are queried in one process (forwards, then backwards, fresh "
+        "objects each time; neighbours are equal under __eq__ and collide under __hash__): every query must repeat its first answer. "
         "non-trivial = distinct (history, call) whose history contains a call that filled a cache or returned a derived object")
 ASSUMPTIONS = [
     "fork() isolation: the parent imports the library and executes nothing; every path runs in its own child",
@@ -232,10 +234,69 @@ def in_child(path):
     return val
 
 
+ORDER_FAMILIES = {"quick": ["abc/explicit", "at/explicit", "conn2/ab/generated"],
+                  "thorough": ["abc/explicit", "at/explicit", "conn2/ab/generated", "abt/explicit", "abc/generated", "diamond/explicit"]}
+
+
 def shards(tier):
     n = len(OPS())
     depth = 2 if tier == "quick" else 3
-    return [(i, depth) for i in range(n)]
+    out = [(i, depth) for i in range(n)]
+    from .. import families
+    out += [("order",) + s_ for s_ in families.shards_for(ORDER_FAMILIES[tier], 500)]
+    return out
+
+
+def model_digest(m):
+    """Everything a maintainer might memoise on a proposition, computed on a FRESH object."""
+    from ..ast import bind
+    obj, _ = bind(m)
+    if is_var(obj):
+        return None
+    errs = [str(e) for e in obj.errors()]
+    out = [errs, [repr(getattr(x, "id", x)) for x in obj.flatten()], list(map(repr, obj.variables)), obj.to_text(), json.dumps(obj.to_json(), sort_keys=True),
+           repr(obj.to_short()), tuple(map(int, obj.equation_bounds)), obj.is_tautology, obj.is_contradiction, obj.negate().to_text(), len(obj.to_b64())]
+    if not errs:
+        r = obj.reduce()
+        out.append(r.to_text() if hasattr(r, "to_text") else repr(r))
+        try:
+            P = obj.to_ge_polyhedron(active=True)
+            out.append((np.asarray(P).tolist(), [repr(v.id) for v in P.variables]))
+            out.append(repr(list(obj.solve([{"a": 1}], solver=cfgspace.Capture("exact")))))
+        except BaseException as e:
+            out.append("EXC " + type(e).__name__)
+    return repr(out)
+
+
+def run_order(desc, acc):
+    """History = the ORDER in which different models are queried in one process: every model of the slice forwards, then backwards; each query
+    on a fresh object must give what it gave before (neighbouring models are equal under __eq__ / collide under __hash__)."""
+    from .. import families
+    _, fam, lo, hi = desc
+    models = families.family(fam)[lo:hi]
+    first = {}
+    for k, m in enumerate(models, start=lo):
+        try:
+            first[k] = model_digest(m)
+        except BaseException as e:
+            first[k] = "EXC " + repr(e)
+        acc.n("traces")
+        acc.n("transitions", 12)
+        acc.state(("order", fam, k))
+    for k in range(hi - 1, lo - 1, -1):
+        try:
+            now = model_digest(models[k - lo])
+        except BaseException as e:
+            now = "EXC " + repr(e)
+        acc.n("traces")
+        acc.n("transitions", 12)
+        acc.obs(k, now)
+        if now != first[k]:
+            acc.violation(None, {"order": True, "fam": fam, "lo": lo, "hi": hi, "k": k},
+                          {"what": "a query on a freshly built model returns something else depending on which other models were queried before", "model": repr(models[k - lo])[:300],
+                           "first_pass": (first[k] or "")[:400], "reverse_pass": (now or "")[:400]})
+        else:
+            acc.nontriv(("order", fam, k))
 
 
 _PRISTINE = {}
@@ -276,6 +337,9 @@ def classify_change(opname, rec):
 
 
 def run_shard(desc, acc, tier):
+    if desc[0] == "order":
+        run_order(desc, acc)
+        return
     first, depth = desc
     ops = OPS()
     n = len(ops)
@@ -349,4 +413,7 @@ def classify_obs(hist, last, want):
 
 
 def replay(case, acc):
+    if case.get("order"):
+        run_order(("order", case["fam"], case["lo"], case["hi"]), acc)
+        return
     check_path(list(case["path"]), acc)
